@@ -124,7 +124,7 @@ func Drive(out io.Writer, seed int64, runs, length int) (map[string]int, error) 
 				}
 			case w < 22:
 				e = M{"chain": "L1", "e": M{"type": "InitiateTokenDeposit", "signer": pick(r, bUsers), "b": int64(1), "to": pick(r, []string{"u1", "u2", "u3", "u1", "u2", l1.BadNotBech32, l1.BadSpace, "opchild"}),
-					"denom": pick(r, []string{"d1", "d1", "d2", "d3"}), "amt": int64(r.Intn(40)), "data": pick(r, []string{"p0", "p0", "p0", "hw", "hwf"})}}
+					"denom": pick(r, []string{"d1", "d1", "d2", "d3"}), "amt": int64(r.Intn(40)), "data": pick(r, []string{"p0", "p0", "p0", "hw", "hwf", "hu"})}}
 			case w < 42 && len(p.Deps) > 0:
 				q := 1 + r.Intn(len(p.Deps))
 				if r.Intn(3) != 0 { // mostly the next expected one
